@@ -23,7 +23,7 @@ class BodyError(Exception):
 
 
 class DecoSys:
-    def __init__(self, L, ncall, genbased, suppress):
+    def __init__(self, L, ncall, genbased, suppress, predirect=False):
         self.acct = Accounting()
         self.current = 0
         self.ngen = 0
@@ -40,6 +40,7 @@ class DecoSys:
         self.ex = {c: 0 for c in range(1, ncall + 1)}
         self.exit_saw = {}
         self.errors = []
+        self.ngen_offset = 0
         s = self
 
         def label(c, exc):
@@ -101,6 +102,18 @@ class DecoSys:
 
             deco = Manager()
 
+        if predirect:
+            # used once directly as `async with manager:` first -- decorated calls must not mind
+            async def direct():
+                async with deco:
+                    pass
+            self.current = 0
+            self.en[0] = self.ex[0] = 0
+            Task(direct(), self.acct).run()
+            self.ngen_offset = self.ngen
+            for d_ in (self.en, self.ex, self.gen, self.exit_saw):
+                d_.pop(0, None)
+
         @deco
         async def func(c):
             await Suspend(s.acct, ("body", c))
@@ -151,7 +164,7 @@ class DecoSys:
     def project(self):
         ks = sorted(self.pc)
         return {"pc": [self.pc[c] for c in ks], "how": [self.how[c] for c in ks], "res": [self.res[c] for c in ks],
-                "gen": [self.gen[c] for c in ks], "en": [self.en[c] for c in ks], "ex": [self.ex[c] for c in ks]}
+                "gen": [self.gen[c] - self.ngen_offset if self.gen[c] else 0 for c in ks], "en": [self.en[c] for c in ks], "ex": [self.ex[c] for c in ks]}
 
 
 def cfg_text(ncall, genbased, suppress, sequential, edges=True):
@@ -174,16 +187,17 @@ INVARIANT Result
 
 
 TIERS = {
-    "quick": [(2, True, False, False), (2, True, True, False), (2, False, False, False), (3, True, False, True), (2, False, True, False)],
+    "quick": [(2, True, False, False), (2, True, True, False), (2, False, False, False), (3, True, False, True), (2, False, True, False),
+              (2, True, False, True, True)],     # ... the manager was first used directly in an `async with`
     "thorough": [(3, True, False, False), (3, True, True, False), (3, False, False, False), (3, False, True, False), (4, True, False, True),
                  (4, False, True, True)],
 }
 
 
 def replay_path(args):
-    (ncall, genbased, suppress, _seq), path = args
+    (ncall, genbased, suppress, _seq), path = args[0][:4], args[1]
     L = tm.load_lib()
-    s = DecoSys(L, ncall, genbased, suppress)
+    s = DecoSys(L, ncall, genbased, suppress, predirect=len(args[0]) > 4 and args[0][4])
     for j, e in enumerate(path):
         a, c, arg = e["a"]
         if not s.can(a, c):
@@ -227,7 +241,7 @@ def check(prop, tier, seed, into=None):
     label_counts = {}
     tot = {"states": 0, "transitions": 0, "paths": 0}
     for cfg in TIERS[tier]:
-        res = run_tlc("Decorator", cfg_text(*cfg), outfiles=["edges.ndjson"], timeout=3000)
+        res = run_tlc("Decorator", cfg_text(*cfg[:4]), outfiles=["edges.ndjson"], timeout=3000)
         tot["states"] += res["distinct"]
         tot["transitions"] += res["generated"]
         edges = read_ndjson(res["files"]["edges.ndjson"])
